@@ -285,6 +285,28 @@ def r5_only_via_wrapper(c, facts):
     c.floor(R, 'named memoised productions', n, 1)
 
 
+def r10_wrapper_always_memoises(c, facts, rule='C12.R10'):
+    """a memoising wrapper memoises at every position: a wrapper that hands some inputs (a look-ahead token, a depth, a
+    size) straight to the production leaves those positions without a memo entry - exactly the nested ones that need it"""
+    R = c.rule(rule, 'MEMO-UNCONDITIONAL: every return of a memoising wrapper passes through memoize()')
+    n = 0
+    for fn in sorted(facts.fns.values(), key=lambda f: f.qname):
+        if fn.crate != 'oal_syntax' or not fn.mir or '{closure' in fn.qname:
+            continue
+        mb = {b for b, t in P.call_blocks(fn, 'grammar::memoize')}
+        if not mb:
+            continue
+        n += 1
+        reach = fn.reachable_from(0, avoid=mb)
+        skips = [b for b in reach if fn.mir['blocks'][b]['term']['t'] == 'return']
+        inst = {'wrapper': fn.qname}
+        if skips:
+            c.bad(R, '%s:returns-without-memoize' % fn.qname.split('::')[-1], '%s can return without going through memoize(): the positions it lets through are parsed again on every backtrack (exponential work on nested input)' % fn.qname, **inst)
+        else:
+            c.ok(R, inst)
+    c.floor(R, 'memoising wrappers', n, 2)
+
+
 def r7_hit_constant_and_shared(c, facts):
     """a memo hit costs O(1) token reads, and what the table holds is returned as it is (a node handed out several times
     is shared: whoever appends to it changes the tree every other requester got)"""
@@ -487,6 +509,7 @@ def r9_context_state(c, facts):
 
 
 def run(c, facts):
+    c.run(r10_wrapper_always_memoises, facts)
     c.run(r9_context_state, facts)
     c.run(r8_arena_monotone, facts)
     c.run(r7_hit_constant_and_shared, facts)
